@@ -51,6 +51,9 @@ const PROGS: &[Prog] = &[
     Prog { id: "syntax-errors-in-a-chain-of-three", text: Some("use helper\nstart :: fn do\n    x := 1 +\nend\n"), uses_std: false, extra: &[("helper.sy", "use deeper\ny := )\n"), ("deeper.sy", "z := (\n")], must_reject: Some(3) },
     Prog { id: "start-only-in-imported-module", text: Some("use helper\nx :: helper.twice(1)\n"), uses_std: false, extra: &[("helper.sy", "twice :: fn x: int -> int\n    x * 2\nend\nstart :: fn do\n    twice(1) <=> 2\nend\n")], must_reject: Some(1) },
     Prog { id: "start-with-wrong-type", text: Some("start :: fn x: int do\nend\n"), uses_std: false, extra: &[], must_reject: Some(1) },
+    // several errors, each on a line that carries multi-byte text before the offending place
+    Prog { id: "errors-after-non-ascii-text", text: Some("fa :: fn do\n    s := \"é\" + )\nend\nfb :: fn do\n    s := \"åäö€\" + )\nend\nfc :: fn do\n    s := \"😀😀\" + )\nend\nstart :: fn do\n    t := \"ü€😀é\" + ) // ünï\nend\n"), uses_std: false, extra: &[], must_reject: Some(4) },
+    Prog { id: "errors-after-tabs-and-non-ascii-text", text: Some("fa :: fn do\n\ts := \"é€\" + )\nend\nstart :: fn do\n\t\tt := \"😀\" + ) // €\nend\n"), uses_std: false, extra: &[], must_reject: Some(2) },
     // a program that does not use std but has locals named like std namespaces
     Prog { id: "std-free-locals-named-like-std-modules", text: Some("P :: blob { value: int }\nf :: fn set: P, list: P -> int\n    set.value + list.value\nend\nstart :: fn do\n    dict :: P { value: 1 }\n    f(dict, P { value: 2 }) <=> 3\n    dict.value <=> 1\nend\n"), uses_std: false, extra: &[], must_reject: None },
 ];
@@ -327,7 +330,7 @@ pub fn run(run: &mut Run) {
     st.transitions = st.evaluations;
     st.traces_validated = st.evaluations;
     run.stats = st;
-    run.rule = "full product of program class (clean, assertion fails, <!>, rejected with 1 and 2 errors, syntax error, std-using clean and failing, missing file, two-file projects: clean / error only in the imported file / syntax errors in importer and imported / in a chain of three files / `start` only in an imported module, `start` of the wrong type, a std-free program whose locals are named like std modules) x --no-std x --require x -v x output mode (run, -o -, -o FILE over absent / existing / missing directory / is-a-directory); distinct by configuration; every configuration is non-trivial".into();
+    run.rule = "full product of program class (clean, assertion fails, <!>, rejected with 1 and 2 errors, syntax error, std-using clean and failing, missing file, two-file projects: clean / error only in the imported file / syntax errors in importer and imported / in a chain of three files / `start` only in an imported module, `start` of the wrong type, errors on lines with multi-byte text and tabs, a std-free program whose locals are named like std modules) x --no-std x --require x -v x output mode (run, -o -, -o FILE over absent / existing / missing directory / is-a-directory); distinct by configuration; every configuration is non-trivial".into();
     run.bounds = json!({"programs": PROGS.iter().map(|p| p.id).collect::<Vec<_>>()});
     run.assumptions = vec![
         "`lua` on PATH is the MiniLua CLI".into(),
